@@ -47,7 +47,8 @@ CHECKS = {
         "contract (classes, order, multiplicity, Dir/File flavour, path roles); the set of constructor calls that mark an "
         "event synthetic is compared with the sub-event generators; a watch release must be reachable when a directory "
         "leaves the tree. Soundness of every event over whole histories is not decided. "
-        "Also: no kernel watch is installed by the reader where the recursive flag is false (events from below a non-recursive watch's children are outside its scope; row shared with C02).",
+        "Also: no kernel watch is installed by the reader where the recursive flag is false (events from below a non-recursive watch's children are outside its scope; row shared with C02); "
+        "the synthetic sub-events name each descendant under join(walk root, name) and, for moves, the prefix-anchored rewrite of it (rules shared with C14).",
         ref="§3/C03",
     ),
     "C04": dict(
@@ -72,7 +73,7 @@ CHECKS = {
         text="Static analysis of the deadlock discipline: acyclic lock order, no join/blocking wait under a lock its waker needs, "
         "every untimed blocking site in a thread body has a waker that stop() must reach after the flag is set, untimed "
         "Condition.wait only inside predicate loops whose predicate the notifiers write, callback lock re-entrant, producers "
-        "never block on the (unbounded) event queue, stop path idempotent. Thorough tier cross-checks every inlined call edge "
+        "never block on the (unbounded) event queue, stop path idempotent, BaseObserver.stop() cannot leave through a failed registry look-up. Thorough tier cross-checks every inlined call edge "
         "against mypy. Liveness under the OS scheduler and anything in user handlers are not decided.",
         ref="§3/C06",
     ),
@@ -92,14 +93,15 @@ CHECKS = {
         "half of a pair whose first half is removed from where it was); every grouped element reaches exactly one put, only an "
         "unmatched MOVED_FROM is delayed; the partner predicate requires non-tuple, MOVED_FROM and cookie equality. Pairing "
         "within the delay (clock values) is not decided. "
-        "Also: no iteration of the hand-over loop leaves it (the rest of the read batch would never be handed over).",
+        "Also: no iteration of the hand-over loop leaves it (the rest of the read batch would never be handed over); the delay queue's deque is unbounded; "
+        "a partner is deleted in the critical section in which it was found in the live deque.",
         ref="§3/C08",
     ),
     "C10": dict(
         technique="exception-flow through the recursive snapshot walk (errno-precise) + effect summary of the polling translation",
         text="Static analysis. Every listdir/stat call below the root absorbs ENOENT/ENOTDIR/EACCES at every recursion depth; "
         "the polling emitter maps each of the eight diff lists once to its class, deletions before creations; baseline "
-        "hand-over order under the lock; root-gone branch. That a diff is the right diff (C09) is not decided.",
+        "hand-over order under the lock; root-gone branch; snapshot paths are join(<directory listed, as given>, entry name). That a diff is the right diff (C09) is not decided.",
         ref="§3/C10",
     ),
     "C11": dict(
@@ -122,14 +124,14 @@ CHECKS = {
     "C13": dict(
         technique="path-sensitive effect summaries over registry operations (failed-call atomicity, coherent effects), identity-method rules",
         text="Static analysis. On every path of schedule() to a call that may raise, the net registry effect so far is empty or "
-        "undone; every public mutator's net effect on the four collections is one of the coherent combinations; emitter "
+        "undone; every public mutator's net effect on the four collections is one of the coherent combinations (stop() clears all four on every path); emitter "
         "construction is guarded by a membership test under the lock; watch equality and hash derive from one key. Equivalence "
         "with a reference map over all call sequences is not decided.",
         ref="§3/C13",
     ),
     "C14": dict(
         technique="def-use based prefix-rewrite rule (anchored vs occurrence-wide) + generator structure rules",
-        text="Static analysis. Every rewrite of a walked path from one directory prefix to another is prefix-anchored; the "
+        text="Static analysis. Every rewrite of a walked path from one directory prefix to another is prefix-anchored and not re-spelled afterwards (an unknown rewrite shape is reported as undecided); the "
         "generators walk top-down, construct Dir classes in the directory loop and File classes in the file loop, mark every "
         "event synthetic, one yield per iteration. That os.walk lists each descendant once is trusted.",
         ref="§3/C14",
@@ -154,14 +156,14 @@ CHECKS = {
         text="Static analysis of DelayedQueue: every access to the deque is under the queue lock on every path, explicit "
         "acquires are released on every path, the wait predicate covers every notifier, writers notify, no sleep under the "
         "lock, the head is re-validated by identity after re-acquiring, an index is used for deletion only inside the critical "
-        "section that found it, closed implies end marker, FIFO container operations. "
+        "section that found it, closed implies end marker, FIFO container operations on an unbounded deque. "
         "'Never early' is decided in its structural part: after the last blocking operation on the path to the hand-out a comparison "
         "establishes insert time + delay - now <= 0 with a fresh reading of the clock put() stamps with; what the clock returns is not modelled.",
         ref="§3/C17",
     ),
     "C18": dict(
         technique="monitor-discipline, quiescence and check-then-act rules over enumerated paths; must-effect analysis of stop(); per-method contract tables decided on each method's own paths",
-        text="Static analysis of the tricks' concurrency discipline: debouncer waits only in predicate loops and swaps the batch "
+        text="Static analysis of the tricks' concurrency discipline: debouncer waits only in predicate loops, every queued event is announced, and the batch is swapped "
         "under the condition; stop flags are test-and-set under the lock; a flag tested outside its lock must have the guarded "
         "action re-validated or excluded by the debouncer holding its condition during the callback; the batch is handed over only after "
         "a timed wait on the interval timed out; stop() reaches debouncer.stop, child stop and both joins; the watcher reports exactly "
@@ -183,8 +185,9 @@ CHECKS = {
         technique="path-sensitive effect summaries of code that cannot be imported here (Windows, FSEvents) vs contract tables; constant agreement",
         text="Static analysis of the Windows and FSEvents translators (parsed, never imported): per-action emission contracts, "
         "inode bookkeeping, the three FSEvents predicates as truth tables, the non-recursive FSEvents filter cannot be bypassed, the wiring to "
-        "the native layer, and the inotify buffer decoder's header-size constants agree "
-        "with the unpack format. Decoder round-trips for all record sequences are not decided.",
+        "the native layer, the inotify buffer decoder's header-size constants agree "
+        "with the unpack format, the Windows buffer walk as a cursor model (record read, name slice, advance, bound against the shortest record computed from the structure's layout), "
+        "and the shared sub-event generators (rules of C14). Decoder round-trips for all record sequences are not decided.",
         ref="§3/C20",
     ),
 }
